@@ -75,6 +75,33 @@ def run(ctx):
                                           f"spanning {a['mms'][mask]} -> {a['mms'][sub]} (a removal lowers the loop number by 0 or 1 and never gains spanning)",
                                           r, observed={"loops": [a["loops"][mask], a["loops"][sub]], "mms": [a["mms"][mask], a["mms"][sub]]})
                             break
+    # ---------------- (i') long chains and many components (the component search re-queues edges: its work list grows geometrically along a
+    # path; 10..12 edges in a row, a ring of 12, 15 isolated edges next to a bubble), single subsets through the hook, union-find oracle
+    creqs, cinfo = [], []
+    for nE in (10, 11, 12):
+        path = [(i, i + 1) for i in range(nE)]
+        for edges in (path, list(reversed(path)), [path[i] for i in rng.sample(range(nE), nE)]):
+            for subset in (list(range(nE)), [e for e in range(nE) if e != nE // 2], [e for e in range(nE) if e % 4 != 3]):
+                massive = [rng.random() < 0.2 for _ in range(nE)]
+                ext = rng.choice([[0, nE], [0], [edges[0][0], edges[-1][1]], [3, 7]])
+                creqs.append(dict(gen.graph_request(edges, [1.0] * nE, massive, ext, 4), op="comps", subset=subset)); cinfo.append((edges, massive, ext, subset))
+    ring = [(i, (i + 1) % 12) for i in range(12)]
+    creqs.append(dict(gen.graph_request(ring, [1.0] * 12, [False] * 12, [0, 6], 4), op="comps", subset=list(range(12)))); cinfo.append((ring, [False] * 12, [0, 6], list(range(12))))
+    many = [(2 * i, 2 * i + 1) for i in range(15)] + [(40, 41), (40, 41)]
+    for subset in (list(range(17)), list(range(16)), [e for e in range(17) if e % 3], list(range(2, 17))):
+        creqs.append(dict(gen.graph_request(many, [1.0] * 17, [False] * 17, [40, 41], 4), op="comps", subset=subset)); cinfo.append((many, [False] * 17, [40, 41], subset))
+    for r, a, (edges, massive, ext, subset) in zip(creqs, run_harness(creqs, timeout=900), cinfo):
+        ctx.case(["long", r["edges"], subset, ext], nontrivial=True); ctx.count("long_chain_or_many_components")
+        small = dict(r, note="single subset through the hook")
+        if "comps" not in a:
+            ctx.violation(f"component analysis of a {len(subset)}-edge subset failed: {str(a)[:200]}", small, observed=a); continue
+        mask = sum(1 << e for e in subset)
+        loops, comps, sp = oracle.subset_info(edges, massive, ext, mask)
+        exp_comps = sorted(sum(1 << e for e in c) for c in comps)
+        if a["loops"] != loops or a["mms"] != sp or sorted(a["comps"]) != exp_comps:
+            ctx.violation(f"{len(subset)}-edge subset of a {len(edges)}-edge graph: loop number/spanning/components ({a['loops']}, {a['mms']}, {len(a['comps'])} components) "
+                          f"differ from the union-find oracle ({loops}, {sp}, {len(exp_comps)} components)", small,
+                          expected={"loops": loops, "mms": sp, "comps": exp_comps}, observed={"loops": a["loops"], "mms": a["mms"], "comps": sorted(a["comps"])})
     # ---------------- (ii) full tables
     cases = graphs.case_stream(rng, 60 if ctx.quick else 500, max_e=6 if ctx.quick else 8, accepted_fraction=0.85)
     # vertex labels that differ by exactly a power of two (8..128), in every run
